@@ -221,7 +221,7 @@ func c18GenStructsFrom(r *Rand, clash bool) []c18Struct {
 		t := &sigT{kind: 'S', name: names[i]}
 		for j := 0; j < k; j++ {
 			t.elems = append(t.elems, c18GenType(r, 1, out))
-			t.members = append(t.members, []string{"x", "y1", "name", "value", "uid", "P0", "a_b"}[(j*3+r.Intn(2))%7])
+			t.members = append(t.members, []string{"x", "y1", "name", "value", "uid", "P0", "a_b", "type", "range", "string", "map", "error"}[(j*3+r.Intn(6))%12])
 		}
 		// member names are distinct
 		seen := map[string]bool{}
